@@ -1272,6 +1272,11 @@ class Executor:
                 if present is None:
                     present = z3.BoolVal(a.const in rec["fields"])
                 return present if isinstance(op, ast.In) else z3.Not(present)
+            if isinstance(b, VList) and hasattr(a, "t") and a.t.sort() == b.et.sort():
+                mem, _w = L.mem_theory(b.et.sort())
+                L.set_of_list(b.et.sort())  # (registers the link between list membership and setof)
+                r = mem(b.t, a.t)
+                return r if isinstance(op, ast.In) else z3.Not(r)
             if isinstance(b, VSet) and hasattr(a, "t") and a.t.sort() == b.et.sort():
                 r = z3.IsMember(a.t, b.t)
                 return r if isinstance(op, ast.In) else z3.Not(r)
